@@ -125,13 +125,36 @@ pub enum Passes {
     Done(usize, F, Vec<[u64; 6]>),
     Nonterminating(usize),
     TooLarge(usize),
+    /// the bounded replay converged after `n` passes, but the REAL `Apply::apply_fixpoint`
+    /// (called on the same input with the same composed portfolio) returned something else
+    FixpointDiffers(usize, F),
+}
+
+/// The real, unbounded `Apply::apply_fixpoint` with the real composed portfolio.  Only call it on an
+/// input for which the bounded replay has already converged (termination is known then).
+pub fn real_apply_fixpoint(portfolio: &[fn(F) -> F], formula: F) -> F {
+    let mut simplification = portfolio.to_vec().into_iter().compose();
+    formula.apply_fixpoint(&mut simplification)
 }
 
 /// `Apply::apply_fixpoint` (`while previous != current`) replayed pass by pass with the real
 /// composed portfolio and the real `Apply::apply`; the checks are in the order of
 /// `classic_passes_from` of Model/ClsTerm.v
+///
+/// Once the replay has converged (so the real loop is known to return), the real
+/// `Formula::apply_fixpoint` is run on the same input as well: the replay is the harness's own
+/// loop, and a change of the loop in /repo (a pass cap, a different exit test) is invisible to it.
 pub fn passes(portfolio: Vec<fn(F) -> F>, formula: F) -> Passes {
-    let mut simplification = portfolio.into_iter().compose();
+    passes_with(portfolio, formula, SIZE_CAP, true)
+}
+/// the real loop is run as well when no formula of the replayed run exceeds this size (a run through
+/// formulas of 10^5 nodes takes half a minute; repeating it adds nothing about the loop)
+pub const REAL_LOOP_SIZE: u64 = 30_000;
+/// `passes` with another size cap (the generators' pre-flight uses a small one) and with / without
+/// the call of the real loop
+pub fn passes_with(portfolio: Vec<fn(F) -> F>, formula: F, size_cap: u64, call_real: bool) -> Passes {
+    let input = formula.clone();
+    let mut simplification = portfolio.clone().into_iter().compose();
     let mut trace = vec![measure(&formula)];
     let mut previous = formula;
     let mut current = previous.clone().apply(&mut simplification);
@@ -139,9 +162,15 @@ pub fn passes(portfolio: Vec<fn(F) -> F>, formula: F) -> Passes {
     let mut fuel = MAX_PASSES;
     loop {
         if previous == current {
+            if call_real && trace.iter().all(|e| e[0] <= REAL_LOOP_SIZE) {
+                let real = real_apply_fixpoint(&portfolio, input);
+                if real != current {
+                    return Passes::FixpointDiffers(n, real);
+                }
+            }
             return Passes::Done(n, current, trace);
         }
-        if tsize(&current) > SIZE_CAP {
+        if tsize(&current) > size_cap {
             return Passes::TooLarge(n);
         }
         if fuel == 0 {
@@ -608,9 +637,90 @@ pub fn fam_orient(rng: &mut Rng, n: usize) -> F {
     if rng.chance(70) { exists(vec![z], f) } else { forall(vec![z.clone()], bin(fol::BinaryConnective::Implication, f, uses(rng, &[]))) }
 }
 
+/// 7. a conjunction (or disjunction) of n quantified formulas over their own variables:
+///    extend_quantifier_scope moves ONE quantifier to the front per pass (n + 1 passes and more)
+pub fn fam_pulled(rng: &mut Rng, n: usize) -> F {
+    let c = if rng.chance(70) { fol::BinaryConnective::Conjunction } else { fol::BinaryConnective::Disjunction };
+    let same_q = rng.chance(60);
+    let q0 = rng.chance(70);
+    let mut parts = vec![];
+    for k in 0..n.max(1) {
+        let s = sort_of(rng, &[4, 2, 1]);
+        let v = var(&format!("{}{}", ["A", "B", "X"][rng.below(3)], k + 1), s);
+        let p = format!("{}{}", ["a", "b"][rng.below(2)], if rng.chance(70) { (k + 1).to_string() } else { String::new() });
+        let mut body = atom(&p, vec![vt(&v)]);
+        if v.sort != Sort::Symbol && rng.chance(70) {
+            let z = G::IntegerTerm(I::Numeral(0));
+            let g = cmp(z, fol::Relation::Less, vt(&v));
+            body = if rng.chance(80) { and(body, g) } else { or(g, body) };
+        }
+        let ex = if same_q { q0 } else { rng.chance(50) };
+        parts.push(if ex { exists(vec![v], body) } else { forall(vec![v], body) });
+    }
+    if rng.chance(20) {
+        parts.push(uses(rng, &[]));
+    }
+    match rng.below(3) {
+        // left-nested (the parser's shape), right-nested, random
+        0 => parts.into_iter().reduce(|l, r| bin(c.clone(), l, r)).unwrap(),
+        1 => parts.into_iter().rev().reduce(|r, l| bin(c.clone(), l, r)).unwrap(),
+        _ => nest(rng, c, &parts),
+    }
+}
+
+/// 8. the tau* translation of a rule whose body has n literals with arithmetic terms: tau*
+///    introduces one general variable per literal and restrict_quantifier_domain narrows ONE
+///    general variable per pass (n = 14: the fixpoint needs more than a dozen passes)
+pub fn fam_taustar(rng: &mut Rng, n: usize) -> F {
+    use anthem::{
+        syntax_tree::asp::mini_gringo as asp,
+        translating::formula_representation::tau_star::TauStar as _,
+    };
+    let text = long_body_rule(rng, n);
+    let program: asp::Program = text.parse().expect("fam_taustar: generated rule does not parse");
+    program.tau_star().formulas.into_iter().next().expect("fam_taustar: empty theory")
+}
+/// the text of one rule whose body has n literals with arithmetic terms
+pub fn long_body_rule(rng: &mut Rng, n: usize) -> String {
+    let mut lits = vec![];
+    for k in 1..=n.max(1) {
+        let x = if rng.chance(85) { format!("X{k}") } else { format!("X{}", 1 + rng.below(k)) };
+        let t = match rng.below(6) {
+            0 => format!("{x}-{k}"),
+            1 => format!("{x}*2"),
+            2 => format!("{k}+{x}"),
+            _ => format!("{x}+{k}"),
+        };
+        let p = ["p", "p", "r"][rng.below(3)];
+        let l = match rng.below(10) {
+            0 => format!("not {p}({t})"),
+            1 => format!("{t} > 0"),
+            _ => format!("{p}({t})"),
+        };
+        lits.push(l);
+    }
+    let head = match rng.below(4) {
+        0 => "".to_string(),
+        1 => "q(X1)".to_string(),
+        2 => "{q}".to_string(),
+        _ => "q".to_string(),
+    };
+    format!("{head} :- {}.", lits.join(", "))
+}
+
 /// the generator of the op `classic_passes`
 pub fn case(rng: &mut Rng) -> F {
-    match rng.weighted(&[2, 3, 3, 2, 5, 2, 5]) {
+    match rng.weighted(&[4, 6, 6, 4, 10, 4, 10, 1, 1]) {
+        7 => {
+            let big = rng.chance(30);
+            let n = 1 + rng.below(if big { 30 } else { 8 });
+            fam_pulled(rng, n)
+        }
+        8 => {
+            let big = rng.chance(30);
+            let n = 1 + rng.below(if big { 16 } else { 5 });
+            fam_taustar(rng, n)
+        }
         0 => {
             let big = rng.chance(10);
             let n = 1 + rng.below(if big { 40 } else { 8 });
@@ -639,4 +749,37 @@ pub fn case(rng: &mut Rng) -> F {
         }
         _ => sc::formula_nested(rng),
     }
+}
+
+/// A formula of the many-pass families is kept only if the fixpoint loop of the classic portfolio stays
+/// small on it (a chain of n definitions is expanded to size 2^n: the debug binary needs a minute for
+/// n = 14, which the crash stream would report as a hang).  A panic of the real code during this
+/// pre-flight keeps the formula: it is exactly what the stream is looking for.
+pub fn tame(f: &F) -> bool {
+    use anthem::verif::simplifying_fol::sigma_0::{classic::CLASSIC, ht::HT, intuitionistic::INTUITIONISTIC};
+    std::panic::set_hook(Box::new(|_| {}));
+    // under the CLI's classic portfolio and under CLASSIC alone
+    for portfolio in [[INTUITIONISTIC, HT, CLASSIC].concat(), CLASSIC.to_vec()] {
+        let f2 = f.clone();
+        let r = std::panic::catch_unwind(move || passes_with(portfolio, f2, 3000, true));
+        let small = match r {
+            Err(_) => true,
+            Ok(Passes::Done(_, g, trace)) => trace.iter().all(|e| e[0] <= 3000) && tsize(&g) <= 3000,
+            Ok(Passes::FixpointDiffers(..)) => true,
+            Ok(_) => false,
+        };
+        if !small {
+            return false;
+        }
+    }
+    true
+}
+pub fn tame_case(rng: &mut Rng) -> F {
+    for _ in 0..20 {
+        let f = case(rng);
+        if tame(&f) {
+            return f;
+        }
+    }
+    fam_prefix(rng, 3)
 }
